@@ -228,6 +228,8 @@ pub enum Tier {
 pub struct Gen<'a> {
     rng: &'a mut Rng,
     next_k: u32,
+    /// The (measured) time-to-live of the back-end of this case.
+    ttl_ns: u64,
 }
 
 impl<'a> Gen<'a> {
@@ -265,7 +267,7 @@ impl<'a> Gen<'a> {
     }
 
     fn advance(&mut self) -> u64 {
-        let t = TTL_NS;
+        let t = self.ttl_ns.max(4);
         if self.rng.chance(3, 5) {
             *self.rng.pick(&[
                 0,
@@ -286,12 +288,13 @@ impl<'a> Gen<'a> {
 
 /// Draws one case from `rng` (DESIGN.md Appendix C).
 pub fn generate(rng: &mut Rng, tier: Tier, force_fault_free: Option<bool>) -> Case {
-    let mut g = Gen { rng, next_k: 1 };
+    let mut g = Gen { rng, next_k: 1, ttl_ns: TTL_NS };
     let backend = match g.rng.weighted(&[60, 33, 7]) {
         0 => Backend::ZoneInfo,
         1 => Backend::Concatenated,
         _ => Backend::Bundled,
     };
+    g.ttl_ns = crate::c19::calib::ttl_ns(backend);
     let fault_free =
         force_fault_free.unwrap_or_else(|| g.rng.chance(1, 5)) || backend == Backend::Bundled;
     let max_ops = match tier {
